@@ -679,6 +679,9 @@ func runParent(prop, tier, only string, jobs int, list bool, seed int) int {
 		if only != "" && m.Name != only {
 			continue
 		}
+		if m.Tier == "off" {
+			continue // kept in the tree for the record (see its doc comment) but not part of any registered check
+		}
 		if m.Tier == "thorough" && tier != "thorough" {
 			continue
 		}
